@@ -169,10 +169,32 @@ def compressed_write_failures(ctx, observe):
                     limit, " ".join(args), name, len(new), sizes_w[:6] + (["..."] if len(sizes_w) > 6 else [])), None)
 
 
+REFUSAL_MESSAGES = ("not updateable in place", "bzip2 is not currently supported for in-place mode")
+ENCFLAG = {"--bz2in": 1, "--gzin": 2, "--zin": 3, "--zstdin": 4}
+CL_LATE_REFUSAL = "inplace-refused-after-modifying"
+
+
+def pre_pass_inputs(args, names):
+    """(prepipe given, encoding flag code, names): the inputs of Model.inplace_ops' pre-pass"""
+    pp = 1 if any(a in ("--prepipe", "--prepipex") for a in args) else 0
+    fl = next((ENCFLAG[a] for a in args if a in ENCFLAG), 0)
+    return pp, fl, list(names)
+
+
+def refused_up_front(args, names):
+    """harness-side statement of the property clause: URLs, prepipes, bzip2 (flag or suffix) anywhere in the list"""
+    pp, fl, names = pre_pass_inputs(args, names)
+    return bool(pp) or fl == 1 or any(n.startswith(("http://", "https://", "file://")) or (fl == 0 and n.endswith(".bz2")) for n in names)
+
+
 class Scenario:
     def __init__(self, name, args, files, outcomes, names=None, decode=None):
         self.name, self.args, self.files, self.outcomes = name, args, files, outcomes      # files: [(name, bytes, mode)]
         self.names = names or [f[0] for f in files]
+        # a non-updatable input anywhere in the list: the whole command is refused before anything is done (empty plan)
+        self.upfront = refused_up_front(args, self.names)
+        if self.upfront:
+            self.outcomes = ["RefusedEarly"] + ["Succeeds"] * (len(self.names) - 1)
         self.decode = decode or (lambda b: b)
         self.transformed = {}                                                            # name -> expected new bytes (as stored)
 
@@ -183,7 +205,7 @@ def build_plan(sc, snap, killed):
     orig = {f[0]: (f[1], f[2]) for f in sc.files}
     temps = sorted(n for n in snap if is_temp(n))
     entries, assigned = [], set()
-    for i, n in enumerate(sc.names):
+    for i, n in enumerate([] if sc.upfront else sc.names):
         n = os.path.normpath(n)
         oc = sc.outcomes[i]
         content, mode = orig.get(n, (b"", 0))
@@ -263,12 +285,12 @@ def project_trace(lines, scratch_hint=None):
 def trace_case(sc, res, killed):
     """Coq term for Harness.chk_trace: the plan gets the temp names and the write sizes seen in the trace"""
     ev = project_trace(res.get("trace") or [])
-    if not ev:
+    if not ev and not (sc.upfront and res.get("trace") is not None and not killed):
         return None, ev
     creates = [e[1] for e in ev if e[0] == 1]
     orig = {f[0]: (f[1], f[2]) for f in sc.files}
     entries, ci = [], 0
-    for i, n in enumerate(sc.names):
+    for i, n in enumerate([] if sc.upfront else sc.names):
         n = os.path.normpath(n)
         oc = sc.outcomes[i]
         mode = orig.get(n, (b"", 0))[1]
@@ -296,6 +318,11 @@ def oracle(ctx, sc, res, killed, how):
     orig = {f[0]: (f[1], f[2]) for f in sc.files}
     bad = []
     failed_at = next((i for i, oc in enumerate(sc.outcomes) if oc != "Succeeds"), None)
+    if sc.upfront:
+        changed = [n for n, (ob, om) in orig.items() if n in snap and snap[n] != (ob, om)]
+        if changed:
+            bad.append((CL_LATE_REFUSAL, f"the command names an input that cannot be updated in place (URL / prepipe / bzip2), yet {changed} "
+                                         f"was modified before mlr refused (exit {res['status']})"))
     for i, n in enumerate(sc.names):
         n = os.path.normpath(n)
         if n not in orig:
@@ -375,14 +402,25 @@ def make_scenarios(ctx):
                       [("a", b"x=1\nx=2\n", 0o640), ("b", b"x=3\nx=abc\nx=5\n", 0o600), ("c", b"x=6\n", 0o644)], ["Succeeds", "StreamFails", "Succeeds"]))
     S.append(Scenario("direct-exit:udf-parameter-type-first", ["put", 'func f(str s): str { return s } $y = f($x)'],
                       [("a", b"x=1\n", 0o640), ("b", b"x=abc\n", 0o600)], ["StreamFails", "Succeeds"]))
-    # refusals
-    S.append(Scenario("refuse:bzip2", ["cat"], [("a", b"x=1\n", 0o640), ("f.bz2", bz2.compress(b"x=1\n"), 0o600), ("c", b"x=6\n", 0o644)],
-                      ["Succeeds", "RefusedAfterCreate", "Succeeds"]))
-    S.append(Scenario("refuse:prepipe", ["--prepipe", "cat", "cat"], [("a", b"x=1\n", 0o640), ("c", b"x=6\n", 0o644)], ["RefusedEarly", "Succeeds"]))
-    S.append(Scenario("refuse:prepipex", ["--prepipex", "cat", "cat"], [("a", b"x=1\n", 0o640)], ["RefusedEarly"]))
+    # refusals: a non-updatable input ANYWHERE in the list (first, middle, LAST) refuses the whole command before anything is modified
+    bz = bz2.compress(b"x=1\n")
+    S.append(Scenario("refuse:bzip2-middle", ["cat"], [("a", b"x=1\n", 0o640), ("f.bz2", bz, 0o600), ("c", b"x=6\n", 0o644)], ["-"] * 3))
+    S.append(Scenario("refuse:bzip2-last", ["put", "$z=1"], [("a", b"x=1\n", 0o640), ("c", b"x=6\n", 0o644), ("f.bz2", bz, 0o600)], ["-"] * 3))
+    S.append(Scenario("refuse:bz2in-flag", ["--bz2in", "put", "$z=1"], [("a", bz, 0o640), ("c", bz, 0o644)], ["-"] * 2))
+    S.append(Scenario("refuse:prepipe", ["--prepipe", "cat", "put", "$z=1"], [("a", b"x=1\n", 0o640), ("c", b"x=6\n", 0o644)], ["-"] * 2))
+    S.append(Scenario("refuse:prepipex", ["--prepipex", "cat", "cat"], [("a", b"x=1\n", 0o640)], ["-"]))
+    S.append(Scenario("refuse:url-first", ["cat"], [("http:/host/x", b"x=1\n", 0o640), ("c", b"x=6\n", 0o644)], ["-"] * 2, names=["http://host/x", "c"]))
+    S.append(Scenario("refuse:url-last", ["put", "$z=1"], [("a", b"x=1\n", 0o640), ("https:/host/x", b"x=1\n", 0o640)], ["-"] * 2, names=["a", "https://host/x"]))
+    S.append(Scenario("refuse:file-url-last", ["put", "$z=1"], [("a", b"x=1\n", 0o640), ("c", b"x=6\n", 0o644)], ["-"] * 3, names=["a", "c", "file://nowhere/x"]))
     S.append(Scenario("refuse:missing-file-middle", ["put", "$z=1"], [("a", b"x=1\n", 0o640), ("c", b"x=6\n", 0o644)], ["Succeeds", "Missing", "Succeeds"],
                       names=["a", "nosuch", "c"]))
-    S.append(Scenario("refuse:url", ["cat"], [("http:/host/x", b"x=1\n", 0o640), ("c", b"x=6\n", 0o644)], ["RefusedEarly", "Succeeds"], names=["http://host/x", "c"]))
+    # accepted although the name looks compressed the other way / the suffix is overridden by a flag
+    S.append(Scenario("success:gzin-flag-on-bz2-name", ["--gzin", "--icsv", "--ocsv", "put", "$d=4"], [("n.bz2", gzip.compress(plain, mtime=0), 0o600)], ["Succeeds"]))
+    # mode preservation incl. setuid / setgid / sticky bits, a read-only file in a writable directory, mode 0000
+    S.append(Scenario("success:special-mode-bits", ["--icsv", "--ocsv", "put", "$m=1"],
+                      [("su.csv", csv_file(rng, 2, "s"), 0o4755), ("sg.csv", csv_file(rng, 2, "g"), 0o2750), ("st.csv", csv_file(rng, 3, "t"), 0o1644)], ok3))
+    S.append(Scenario("success:read-only-files", ["--icsv", "--ojson", "cat"],
+                      [("ro.csv", csv_file(rng, 2, "o"), 0o444), ("none.csv", csv_file(rng, 2, "n"), 0o000), ("sx.csv", csv_file(rng, 2, "x"), 0o6711)], ok3))
     return S
 
 
@@ -422,7 +460,7 @@ def run(ctx):
                                "POSIX rename is atomic with respect to process crashes (assumed; power-loss durability is out of scope: mlr does not fsync)"]
     ctx.assumptions = ["os.CreateTemp returns a name that does not exist", "a crash is a process kill; the kernel completes or does not start each system call"]
     forbidden_gate(ctx, ["Base", "C19"])
-    ok, why = check_props(ctx, "C19/Props.v", ["C19/Harness.vo", "C19/Proofs.vo"])
+    ok, why = check_props(ctx, "C19/Props.v", ["C19/Harness.vo", "C19/Proofs.vo", "C19/ProofsRun.vo"])
     terms, meta, tterms, tmeta = [], [], [], []
     S = make_scenarios(ctx)
     nviol = 0
@@ -469,8 +507,16 @@ def run(ctx):
         def returned(sc):
             expected_transforms(ctx, sc)
             return R.trace_run(ctx, sc.files, sc.args, names=sc.names)         # to completion, under the ptrace supervisor (for the trace)
+        pre_terms, pre_meta = [], []
         for sc, res in zip(S, pmap(returned, S)):
             observe(sc, res, False, "mlr -I " + " ".join(sc.args) + " " + " ".join(sc.names))
+            # the pre-pass: does the model predict exactly when mlr refuses with a "not updatable in place" message?
+            pp, fl, nm = pre_pass_inputs(sc.args, sc.names)
+            err_txt = res["stderr"] if isinstance(res["stderr"], str) else res["stderr"].decode("latin1")
+            refused = 1 if (res["status"] not in (0, "killed") and any(m in err_txt for m in REFUSAL_MESSAGES)) else 0
+            pre_terms.append("(%d, %d, [%s], %d)" % (pp, fl, "; ".join(cb(n.encode()) for n in nm), refused))
+            pre_meta.append((sc, res, refused))
+            ctx.dist("pre-pass:" + ("refused" if refused else "accepted"))
         # ---- fault injection: one failing system call
         rng = ctx.rng
         inj_sc = [s for s in S if s.name in ("success:csv-to-json", "success:gzin-flag")]      # files of one scenario have the same syscall structure
@@ -539,8 +585,15 @@ def run(ctx):
                                        "Z * list (bytes * bytes * Z * Z * list bytes) * list (bytes * bytes * Z) * list (bytes * option (bytes * Z))", "chk", terms, shard=len(terms) // JOBS + 1)
         bad_t, err_t = coq_eval_mismatches(ctx, "C19trace", "C19.Model C19.Harness", "Z * list (bytes * bytes * Z * Z * list Z) * list tev", "chk_trace",
                                            tterms, shard=len(tterms) // JOBS + 1)
-    ctx.cov["correspondence"] = {"cases": len(terms), "mismatches": len(bad), "trace_cases": len(tterms), "trace_mismatches": len(bad_t)}
-    err = err + err_t
+        bad_p, err_p = coq_eval_mismatches(ctx, "C19pre", "C19.Model C19.Harness", "Z * Z * list bytes * Z", "chk_pre", pre_terms)
+    ctx.cov["correspondence"] = {"cases": len(terms), "mismatches": len(bad), "trace_cases": len(tterms), "trace_mismatches": len(bad_t),
+                                 "pre_pass_cases": len(pre_terms), "pre_pass_mismatches": len(bad_p)}
+    err = err + err_t + err_p
+    for i in bad_p[:4]:
+        sc, res, refused = pre_meta[i]
+        ctx.violation({"broken": "correspondence C19.Harness.chk_pre (Model.inplace_ops' pre-pass and mlr disagree on whether the command is refused as not updatable in place)",
+                       "scenario": sc.name, "args": sc.args, "names": sc.names, "mlr_refused": bool(refused), "status": res["status"],
+                       "stderr": str(res["stderr"])[-300:]}, found_input=False)
     for i in bad_t[:4]:
         sc, res, killed, how, ev, had = tmeta[i]
         if not had:
